@@ -1307,7 +1307,7 @@ pub fn scale_geometry(op: &mut Op, f: f32) {
         }
     };
     match op {
-        Op::Fill { path, .. } => sp(path),
+        Op::Fill { path, .. } | Op::PushClip(path) => sp(path),
         Op::Stroke { path, style, .. } => {
             sp(path);
             style.width.0 *= f;
